@@ -4,11 +4,11 @@ CONSTANTS
   Keys = {1, 2}
   MaxOps = 2
   NoDupRead = FALSE
-  LoseMinKey = TRUE
+  LoseMinKey = FALSE
   EarlyClean = FALSE
-  WithExclusive = FALSE
-  ExclLe = FALSE
+  WithExclusive = TRUE
+  ExclLe = TRUE
   WithAborts = FALSE
-INVARIANTS Serializable OutcomeTruthful RetainsOverlapping
+INVARIANTS ExclusiveRespected Serializable OutcomeTruthful RetainsOverlapping
 PROPERTIES SnapshotStable AtomicCommit
 CHECK_DEADLOCK FALSE
